@@ -77,16 +77,15 @@ unsafe fn tk_clone(p: *const ()) -> RawWaker {
 }
 fn tk_fire(t: &Tok) {
     if t.tok >= 0 && !t.sh.closed.load(Ordering::SeqCst) {
-        let mut f = t.sh.fired.lock().unwrap();
-        let first = !f.contains(&t.tok);
-        f.push(t.tok);
-        drop(f);
         let tok = t.tok;
-        if first {
-            t.sh.ev(|now| format!("F {} {}", tok, now));
-        } else {
-            t.sh.ev(|now| format!("F2 {} {}", tok, now));
-        }
+        // the F event is logged BEFORE the token becomes visible as fired (the harness thread
+        // waits on `fired`): both happen under the log lock
+        t.sh.ev(|now| {
+            let mut f = t.sh.fired.lock().unwrap();
+            let first = !f.contains(&tok);
+            f.push(tok);
+            if first { format!("F {} {}", tok, now) } else { format!("F2 {} {}", tok, now) }
+        });
     }
 }
 unsafe fn tk_wake(p: *const ()) {
